@@ -1,9 +1,10 @@
 SPECIFICATION Spec
 CONSTANTS
   MaxSteps = 2
-  Ops = {"yobj", "ctor", "multi", "modctor", "modctorx", "modmulti", "subctor"}
+  Ops = {"yobj", "yobjsub", "ctor", "multi", "modctor", "modctorx", "modmulti", "subctor", "load"}
   Singles = {"SafeLoader", "CSafeLoader", "BaseLoader", "FullLoader", "CFullLoader", "UnsafeLoader"}
   Lists = {{"SafeLoader"}, {"SafeLoader", "CSafeLoader"}, {"BaseLoader"}, {"FullLoader", "UnsafeLoader"}}
   SubBases = {"SafeLoader", "BaseLoader", "FullLoader"}
 INVARIANT PreludeRefines
 INVARIANT DefaultFrozen
+INVARIANT OrderFree
